@@ -58,6 +58,7 @@ def table : List ModelEntries :=
   , Entries.clock
   , Entries.timerqueue
   , Entries.timerop
+  , Entries.epolltimer
   , Entries.whenall
   , Entries.stopwhen
   ]
